@@ -272,3 +272,74 @@ def var_chain_reaches(body, name, target, depth=6):
         if not work:
             break
     return False
+
+
+
+def bind_role(body, role, origin_rx=None, full=False, type_rx=None, used_as=None, assigned_from=None):
+    """Make a rule independent of what a local variable of /repo happens to be called: find the user variable that PLAYS `role` structurally and let it render
+    under the role name (`var:<role>`), whatever its source name is.  A candidate must satisfy every criterion given:
+      origin_rx      regex searched in the rendering of its definition (variable level; `full=True`: fully expanded origin)
+      type_rx        regex searched in its MIR type
+      used_as        (callee regex, argument index): it (or a reference to it) is that argument of such a call in this body
+      assigned_from  callee regex: one of its definitions is the result of such a call
+    Exactly one candidate → it is bound to the role (a pure rename in /repo then changes nothing for the rule).  If a variable is already called `role` and
+    satisfies the criteria, or nothing / several things qualify, nothing is changed — the rule falls back to the name and fails closed as before.
+    Returns the local number or None."""
+    if body is None:
+        return None
+    from .flow import Origin, render, short
+    cands = []
+    ov = None
+    for l, names in list(body.varnames.items()):
+        if not names:
+            continue
+        if type_rx and not re.search(type_rx, body.locals[l]):
+            continue
+        if origin_rx:
+            ov = ov or Origin(body, stop_at_vars=not full)
+            try:
+                r = render(ov.of_local(l))
+            except Exception:
+                continue
+            if not re.search(origin_rx, r):
+                continue
+        if assigned_from:
+            ok = False
+            for d in body.defs.get(l, []):
+                if d[2] in ('call', 'pcall') and d[3].callee and re.search(assigned_from, short(d[3].callee)):
+                    ok = True
+            if not ok:
+                # through `?`: the defining value's origin starts with the call
+                ov2 = Origin(body)
+                try:
+                    ok = re.match(r'^(?:%s)\(' % assigned_from, render(ov2.of_local(l))) is not None
+                except Exception:
+                    ok = False
+            if not ok:
+                continue
+        if used_as:
+            ok = False
+            ovv = Origin(body, stop_at_vars=True)
+            for c in body.calls:
+                if c.callee and re.search(used_as[0], short(c.callee)) and len(c.args) > used_as[1]:
+                    a = c.args[used_as[1]]
+                    if a.get('k') in ('mv', 'cp'):
+                        r = render(ovv.of_operand(a))
+                        if r in ('var:' + names[0], '&var:' + names[0], '&mut var:' + names[0]) or a['pl']['l'] == l:
+                            ok = True
+            if not ok:
+                continue
+        cands.append(l)
+    if len(cands) != 1:
+        return None
+    l = cands[0]
+    if role not in body.varnames[l]:
+        # the role name must not collide with another variable of this body
+        for l2, ns in body.varnames.items():
+            if l2 != l and role in ns:
+                return None
+        body.varnames[l] = [role]
+        for attr in ('_err_blocks',):
+            if hasattr(body, attr):
+                delattr(body, attr)
+    return l
